@@ -72,6 +72,29 @@ def case_tmp(d):
             os.environ["TMPDIR"] = old_env
 
 
+def reset_js():
+    """cwl_utils keeps one persistent node process per thread with a request/response protocol on pipes; both
+    runners use it.  A run that was interrupted (timeout) leaves a half-read answer behind, so every runner
+    invocation starts with a fresh engine."""
+    try:
+        from cwl_utils.sandboxjs import NodeJSEngine
+
+        procs = getattr(NodeJSEngine.localdata, "procs", None)
+        if procs:
+            for p in list(procs.values()):
+                try:
+                    p.kill()
+                    p.wait(timeout=5)
+                except Exception:
+                    pass
+            procs.clear()
+    except Exception:
+        pass
+
+
+ENVIRONMENT_MARKS = ("Long-running script killed after",)  # JS evaluation hit its wall-clock limit (busy machine)
+
+
 class _Capture(logging.Handler):
     def __init__(self):
         super().__init__(level=logging.DEBUG)
@@ -125,6 +148,7 @@ def run_ref(d, alarm=None, timeout=120):
                 logging.getLogger(n).handlers = []
         return rc, out.getvalue(), "\n".join(cap.lines)
 
+    reset_js()
     try:
         with case_tmp(d), (alarm(timeout) if alarm else contextlib.nullcontext()):
             rc, out, log = call([])
@@ -161,11 +185,14 @@ def run_sf(d, alarm=None, timeout=120, streamflow_file=None, name=None, outdir="
         args += ["--name", name]
     args += [os.path.join(d, "w.cwl"), os.path.join(d, "j.json")]
     cwd = os.getcwd()
+    reset_js()
     try:
         os.chdir(d)
         with case_tmp(d), contextlib.redirect_stdout(out), (alarm(timeout) if alarm else contextlib.nullcontext()):
             rc = sf_main(args)
         log = "\n".join(cap.lines)
+        if any(m in log for m in ENVIRONMENT_MARKS):
+            return "TIMEOUT", None, log[:1500]
         if len(log) > 5000:
             log = log[:2500] + "\n...\n" + log[-2500:]
         if rc != 0:
